@@ -49,6 +49,14 @@ SNIP = [
     ("nums = [1, 2]\nnums.append(3)\ntotal = 0\nfor n in nums:\n    total = total + n\nprint(total)", 1),
     ("x = [1, 2, 3]\nprint(sorted(x), list(reversed(x)))", 1), ("import random\nr = random.randint(1, 2)", 1),
     ("x = int(input('n'))\nprint(x % 2 == 0 and x > 3 or not x)", 1),
+    ("pair = (1, 2)\nx = pair[0]\ny = pair[2]\nz = pair[-1]\nw = pair[5]", 1),
+    ("for k, v in {'a': 1}.items():\n    print(k, v)\nq, r = divmod(7, 2)\nprint(q, r)", 1),
+    ("for i, e in enumerate(['a']):\n    print(i, e)", 1),
+    ("xs: list[int] = []\nxs.append(1)\nprint(xs)", 1), ("t = list()\nt.append('a')\nprint(t)", 1),
+    ("u = set()\nu.add(1)\nprint(u)", 1), ("s2: set[str] = set()\ns2.add('a')", 1),
+    ("def f(a: list[str]) -> dict[str, int]:\n    return {}\nprint(f(['a']))", 1),
+    ("d2: dict[str, int] = dict()\nd2['a'] = 1\nprint(d2)", 1), ("tp: tuple[int, str] = (1, 'a')\nprint(tp[1])", 1),
+    ("lst = [1, 2, 3]\nprint(lst[3], lst[-1], lst[0:2])", 1), ("word = 'abc'\nprint(word[3], word[-1])", 1),
 ]
 WRAP = ["{}", "def w():\n{i}\nw()", "if True:\n{i}", "for q in range(2):\n{i}", "class W:\n{i}", "while False:\n{i}",
         "try:\n{i}\nexcept Exception:\n    pass"]
@@ -196,6 +204,73 @@ def body_triples(ctx):
     analyse(ctx, code, True, 'triple')
 
 
+REF = {}
+
+
+def _fresh_issue_list(i):
+    """issues of SNIP[i] analysed first in this interpreter (used in a subprocess)"""
+    _setup()
+    code = SNIP[i][0] + "\n"
+    cmds.clear_report()
+    cmds.contextualize_report(code)
+    t = tifa_analysis()
+    return [bool(t.success), [list(x) for x in _issues(t)]]
+
+
+def compute_references():
+    import json
+    import os
+    import subprocess
+    import sys
+    here = os.path.dirname(os.path.dirname(os.path.abspath(__file__)))
+    todo = [i for i in range(len(SNIP)) if i not in REF and _valid(SNIP[i][0])]
+    for lo in range(0, len(todo), 16):
+        procs = {}
+        for i in todo[lo:lo + 16]:
+            code = ("import sys, json, warnings; warnings.filterwarnings('ignore'); sys.stdin = open('/dev/null');"
+                    "sys.path.insert(0, %r); sys.path.insert(0, %r);"
+                    "from checks import c18; print('\\n@@' + json.dumps(c18._fresh_issue_list(%d)))"
+                    % (here, os.environ.get('PEDAL_REPO', '/repo'), i))
+            procs[i] = subprocess.Popen([sys.executable, '-c', code], stdout=subprocess.PIPE, stderr=subprocess.PIPE,
+                                        text=True, cwd='/')
+        for i, p in procs.items():
+            so, se = p.communicate()
+            line = [l for l in so.split("\n") if l.startswith('@@')]
+            if not line:
+                raise RuntimeError('reference analysis of snippet %d failed: %s' % (i, se[-300:]))
+            REF[i] = json.loads(line[-1][2:])
+
+
+def body_sequence(ctx):
+    """Analyses of different programs in one process: each must equal the analysis of the same program made first
+    in a fresh interpreter (process-wide type tables must not remember earlier programs)."""
+    a = ctx.choose(len(SNIP), 'first-program')
+    b = ctx.choose(len(SNIP), 'second-program')
+    if a not in REF or b not in REF:
+        ctx.abstain()
+        return
+    ctx.observe(repr((a, b)))
+    ctx.set_sample({'first': SNIP[a][0], 'second': SNIP[b][0]})
+    ctx.mark_nontrivial(repr((a, b)))
+    for pos, i in enumerate((a, b)):
+        code = SNIP[i][0] + "\n"
+        cmds.clear_report()
+        cmds.contextualize_report(code)
+        ctx.step('tifa_analysis')
+        try:
+            t = tifa_analysis()
+        except BaseException as e:   # noqa
+            ctx.fail({'symptom': 'tifa_analysis raised', 'exception': type(e).__name__}, program=code)
+            return
+        got = [bool(t.success), [list(x) for x in _issues(t)]]
+        if got != REF[i]:
+            ctx.fail({'symptom': 'analysis differs from the same analysis in a fresh interpreter',
+                      'position': pos}, program=code, earlier=SNIP[a][0] if pos else '(earlier executions of this worker)',
+                     fresh=REF[i], got=got)
+            return
+    ctx.outcome('same')
+
+
 def body_registry(ctx):
     i = ctx.choose(len(REGISTRY), 'program')
     code, name = REGISTRY[i]
@@ -226,7 +301,10 @@ def bounds(tier):
 
 
 def phases(tier):
-    return [Phase('forms', body_forms, setup=_setup, chunk=40, describe='every language-form snippet x container'),
+    compute_references()
+    return [Phase('program-sequences', body_sequence, setup=_setup, chunk=200,
+                  describe='every ordered pair of snippets analysed one after the other, each compared with a fresh-interpreter analysis'),
+            Phase('forms', body_forms, setup=_setup, chunk=40, describe='every language-form snippet x container'),
             Phase('pairs', body_pairs, setup=_setup, chunk=100, describe='every ordered pair of snippets'),
             Phase('registry', body_registry, setup=_setup, chunk=100, describe='every registered builtin/method x argument shapes'),
             Phase('flow', body_flow, setup=_setup, chunk=100, describe='flow grammar (branches, loops, functions)')] + (
